@@ -111,7 +111,12 @@ class ContextReuse(Suite):
     def corpus(self):
         a = {'p': [1], 'for_namespaces': {'n': {'p': {'k': ['{X}/f', 1]}, 'q': [1, 2]}}}
         b = {'q': 'b', 'for_namespaces': {'n': {'p': {'k': ['other']}, 'q': ['{X}']}}}
-        return [dict(ctxs=[a, b], builds=[dict(use=[0, 1], gv={'X': 'one'}), dict(use=[0], gv={'X': 'two'}),
+        u = {'p': [1], 'uses': 'ctx_extra.json'}
+        v = {'q': 'v', 'uses': ['ctx_extra.json', 'ctx_other.json as n']}
+        uses_cases = [dict(ctxs=[u, b], builds=[dict(use=[0], gv=None), dict(use=[0], gv=None)], form=f) for f in ('dict', 'object')] + \
+                     [dict(ctxs=[v, u], builds=[dict(use=[0, 1], gv=None), dict(use=[1], gv=None), dict(use=[0], gv=None)], form=f)
+                      for f in ('dict', 'object')]
+        return uses_cases + [dict(ctxs=[a, b], builds=[dict(use=[0, 1], gv={'X': 'one'}), dict(use=[0], gv={'X': 'two'}),
                                           dict(use=[1, 0], gv=None), dict(use=[0], gv={'X': 'one'})], form='dict'),
                 dict(ctxs=[a, b], builds=[dict(use=[0], gv={'X': 'one'}), dict(use=[0], gv={'X': 'two'})], form='object'),
                 dict(ctxs=[a, b], builds=[dict(use=[0, 1], gv=None), dict(use=[0], gv=None)], form='object')]
@@ -122,6 +127,8 @@ class ContextReuse(Suite):
             ctxs = []
             for _i in range(rng.choice([2, 3])):
                 c = {k: copy.deepcopy(rng.choice(self.VALUES)) for k in ('p', 'q') if rng.random() < 0.5}
+                if rng.random() < 0.25:
+                    c['uses'] = rng.choice(['ctx_extra.json', ['ctx_extra.json'], ['ctx_other.json as n', 'ctx_extra.json']])
                 fn = {}
                 for ns in ('n', 'm'):
                     if rng.random() < 0.7:
@@ -142,7 +149,9 @@ class ContextReuse(Suite):
         from taskchain.config import Context
         from ..suites_chain import K, P
         classes = [dict(K(0, 'Src', params=[P('p', default=[-1]), P('q', default=[-2])]), name='src')]
-        with pl.workspace(dict(classes=classes, files={'pipe.json': {'tasks': ['@M.*']}})) as (d, mod):
+        files = {'pipe.json': {'tasks': ['@M.*']}, 'ctx_extra.json': {'q': ['from extra'], 'for_namespaces': {'m': {'p': 'extra m'}}},
+                 'ctx_other.json': {'p': {'other': 1}}}
+        with pl.workspace(dict(classes=classes, files=files)) as (d, mod):
             def make(ctx_specs):
                 cs = [copy.deepcopy(c) for c in ctx_specs]
                 return [Context(data=c, name=f'ctx{i}') for i, c in enumerate(cs)] if case['form'] == 'object' else cs
